@@ -309,7 +309,7 @@ func c16Run(s *Shard) {
 	sampled := false
 	for _, method := range allMethods {
 		for _, subset := range []bool{false, true} {
-			for variant := 0; variant < 9; variant++ { // observed range, declared range, c1 strictly negative, c3 single-valued, undeclared extra values, c3 at 1e-9 scale, never-considered alternatives beyond both ends
+			for variant := 0; variant < 11; variant++ { // observed range, declared range, c1 strictly negative, c3 single-valued, undeclared extra values, c3 at 1e-9 scale, never-considered alternatives beyond both ends
 				root := rootRequest(method, subset, variant == 1)
 				if variant == 2 {
 					root = negativeVariant(root)
@@ -330,6 +330,23 @@ func c16Run(s *Shard) {
 						continue
 					}
 					root = typelessVariant(root)
+				}
+				if variant == 9 || variant == 10 {
+					// one / two known alternatives (fewer alternatives than criteria), declared and observed ranges
+					if subset {
+						continue
+					}
+					keep := 11 - variant // 2 known for variant 9, 1 for variant 10
+					root = rootRequest(method, false, true)
+					root["knownAlternatives"] = asL(root["knownAlternatives"])[:keep]
+					root["choseToMake"] = asL(root["choseToMake"])[:keep]
+					if variant == 9 {
+						for _, cr := range asL(root["criteria"]) {
+							if asS(asM(cr)["id"]) == "c2" {
+								delete(asM(cr), "valuesRange")
+							}
+						}
+					}
 				}
 				if variant == 7 {
 					// nobody is considered (an explicitly empty choseToMake): every alternative is "known only"
